@@ -707,3 +707,70 @@ func IgnoreCheckNaming(diff []string) []string {
 	}
 	return out
 }
+
+// TypeFamily maps a declared column type to the family Atlas's SQLite driver keeps apart when it
+// compares column types (finer than SQLite's affinity: inside NUMERIC affinity it distinguishes bool,
+// time, decimal, json and uuid types). The mapping is written here from the type names of
+// https://www.sqlite.org/datatype3.html and of the driver's HCL type registry, not taken from Atlas
+// at run time.
+func TypeFamily(decl string) string {
+	b := strings.ToLower(strings.TrimSpace(decl))
+	if i := strings.IndexByte(b, '('); i >= 0 {
+		b = strings.TrimSpace(b[:i])
+	}
+	switch b {
+	case "bool", "boolean":
+		return "bool"
+	case "date", "datetime", "time", "timestamp":
+		return "time"
+	case "decimal", "numeric":
+		return "decimal"
+	case "json", "jsonb":
+		return "json"
+	case "uuid":
+		return "uuid"
+	case "int2", "int8", "int", "uint64", "integer", "tinyint", "smallint", "mediumint", "bigint", "unsigned big int":
+		return "int"
+	case "real", "double", "double precision", "float":
+		return "float"
+	case "char", "character", "varchar", "varying character", "nchar", "native character", "nvarchar", "text", "clob":
+		return "string"
+	case "blob", "":
+		return "blob"
+	}
+	return "user:" + b
+}
+
+// TypeFacts returns one line "typefam <t>.<c> <family>" per column (see TypeFamily). They are kept out
+// of Facts: inside one family Atlas documents spellings as equal and no demand is made, and monitors
+// opt in to the family level explicitly.
+func (s Schema) TypeFacts() Facts {
+	var out Facts
+	for _, t := range s.Tables {
+		for _, c := range t.Cols {
+			out = append(out, fmt.Sprintf("typefam %s.%s %s", t.Name, c.Name, TypeFamily(c.Type)))
+		}
+	}
+	sort.Strings(out)
+	return out
+}
+
+// DBTypeFacts reads the TypeFacts of the live database (PRAGMA table_xinfo).
+func DBTypeFacts(db *sql.DB) (Facts, error) {
+	var out Facts
+	tables, err := UserTables(db)
+	if err != nil {
+		return nil, err
+	}
+	for _, tr := range tables {
+		cols, err := Query(db, `SELECT name, type FROM pragma_table_xinfo(`+sqlStr(tr[0])+`) ORDER BY cid`)
+		if err != nil {
+			return nil, err
+		}
+		for _, c := range cols {
+			out = append(out, fmt.Sprintf("typefam %s.%s %s", tr[0], c[0], TypeFamily(c[1])))
+		}
+	}
+	sort.Strings(out)
+	return out, nil
+}
